@@ -197,3 +197,54 @@ GCF = REG.add(Contract(
     "writer.write#get_column_fmt", params={"j": INT, "column_fmt": OBJ, "fmt": STR},
     ensures=gcf_post, ghost_init=LI.get_ghost, verify_with=verify_gcf, modifies={}, noraise=True,
     properties=("C01", "C12", "C16")))
+
+
+# ---------------------------------------------------------------- W6: the data-section title line of writer.write
+# Block: the single statement `if mnemonics_header: ... else: ...`.  What the reader relies on (C01, C11, C12): the title of the data
+# section, i.e. everything this block writes (in however many write calls), begins with data_section_header + " " and ends with the
+# line terminator - whatever `wrap`, the widths and the mnemonics are; text that passed through a re-flowing library call is unknown text.  (That no mnemonic contains a line break is not claimed.)
+def w6_init(c, st):
+    st.ghost["$title_text"] = z3.StringVal("")
+    st.ghost["$dsh0"] = c.a["data_section_header"].t
+
+
+def w6_write_hook(c, st):
+    n = getattr(st, "hook_node", None)
+    call = getattr(n, "value", None)
+    t = z3.String(fresh_name("unknown_text"))
+    if isinstance(call, _ast.Call) and len(call.args) == 1:
+        out = []
+        rs = c.eng.ev(call.args[0], st, out)
+        if len(rs) == 1 and not out and isinstance(rs[0][1], VStr):
+            t = rs[0][1].t
+    st.ghost["$title_text"] = z3.Concat(st.ghost["$title_text"], t)
+
+
+def w6_verify(E, c):
+    body, fn = BL.find_block(E, "writer.write", "if mnemonics_header:", 1)
+    return E.verify(c, fnode=fn, body=body, module="writer")
+
+
+def w6_nothing_written(c):
+    return [("nothing-written-inside-the-loops", c.g("$title_text") == z3.StringVal(""))]
+
+
+W6 = REG.add(Contract(
+    "writer.write#W6-data-section-title",
+    params={"las": API.LAS, "mnemonics_header": BOOL, "ncols": INT, "data_arr": OBJ, "data_section_header": STR, "header_width": INT,
+            "wrap": BOOL, "data_width": INT, "file_object": FILE,
+            "get_column_fmt": VExt("lib:get_column_fmt"), "get_left_spacing": VExt("lib:get_left_spacing"),
+            "format_data_section_line": VExt("lib:format_data_section_line")},
+    requires=lambda c: API.las_shape(_LasAlias(c)) + [("as-many-columns-as-curves", c.a["ncols"].t == API.cv(_LasAlias(c)).n)],
+    ensures=lambda c: [("what-is-written-begins-with-data_section_header-and-a-blank", z3.PrefixOf(z3.Concat(c.g("$dsh0"), z3.StringVal(" ")), c.g("$title_text"))),
+                       ("and-ends-with-the-line-terminator", z3.SuffixOf(z3.StringVal("\n"), c.g("$title_text")))],
+    loops={0: lambda c: w6_nothing_written(c) + [("one-width-per-column", c.v("header_col_widths").n == c.i)],
+           1: lambda c: w6_nothing_written(c) + [("one-value-per-curve", c.v("header_values").n == c.i),
+                                                  ("widths-kept", c.v("header_col_widths").n == c.a["ncols"].t)],
+           2: lambda c: w6_nothing_written(c)},
+    loop_ghost={0: ["$title_text"], 1: ["$title_text"], 2: ["$title_text"]},
+    local_types={"header_col_widths": LIST(INT), "header_values": LIST(STR)},
+    ghost_init=w6_init, hooks={"file_object.write(": w6_write_hook},
+    verify_with=w6_verify, abstract_exprs=True, may_raise=["Any"], free_default=True, modifies={},
+    properties=("C01", "C11", "C12")))
+W6.note = "data_arr[0, j] is an opaque numpy index; the text between the prefix and the terminator (the mnemonics) is not constrained"
